@@ -86,6 +86,14 @@ and parse_items (t : string list) (acc : instr list) : instr list * string list 
   | "ICallStreamer" :: b :: r -> parse_items r (ICallStreamer (bool_of b) :: acc)
   | "IReturn" :: k :: r -> parse_items r (IReturn (retk_of k) :: acc)
   | "IDelegate" :: m :: b :: r -> parse_items r (IDelegate (meth_of_coq m, bool_of b) :: acc)
+  | "IIfElse" :: "{" :: r ->
+      let (c, r1) = parse_cnd_app r in
+      (match r1 with
+       | "}" :: r2 ->
+           let (a, r3) = parse_block r2 in
+           let (b, r4) = parse_block r3 in
+           parse_items r4 (IIfElse (c, a, b) :: acc)
+       | _ -> raise (Bad "missing }"))
   | ("IIf" | "IWhile" as op) :: "{" :: r ->
       let (c, r1) = parse_cnd_app r in
       (match r1 with
